@@ -125,6 +125,22 @@ def staged(case, acc, reloads):
             except Exception as e:
                 ctx.hit("c18.reload_failed")
                 break
+    # finally ask the generator of the (possibly re-read) graph for one name of
+    # every kind directly: each must be new for the whole hierarchy
+    try:
+        ctx.data["c18_phase"] = phase
+        gen = scfg.name_gen
+        for kind in ("synth_asign", "synth_head", "synth_exit", "synth_exit_latch",
+                     "synth_exit_branch", "synth_tail", "synth_fill", "synth_return",
+                     "python_bytecode", "basic"):
+            gen.new_block_name(kind)
+        for kind in ("loop", "head", "branch", "tail", "meta"):
+            gen.new_region_name(kind)
+        for kind in ("control", "exit", "backedge"):
+            gen.new_var_name(kind)
+        ctx.hit("c18.direct_requests_after_pipeline")
+    except Exception:
+        ctx.hit("c18.direct_requests_failed")
     nt = ctx.counters.get("M-names.handed_out", 0) >= 3
     acc.add_ctx(ctx, case, nontrivial_hash=core.sha([case["g"], sorted(reloads.items())]) if nt else None,
                 sample=(acc.evaluations % 499 == 0))
